@@ -154,5 +154,16 @@ def discharge(obligations, workers=None, canary=False):
         return []
     if len(jobs) <= 2:
         return [fn(j) for j in jobs]
-    with ProcessPoolExecutor(max_workers=workers) as ex:
-        return list(ex.map(fn, jobs, chunksize=1))
+    try:
+        with ProcessPoolExecutor(max_workers=workers) as ex:
+            return list(ex.map(fn, jobs, chunksize=1))
+    except Exception:
+        # a solver process died (z3 can crash natively): isolate -- every job again in a pool of its own, a job whose solver dies is undecided
+        out = []
+        for j in jobs:
+            try:
+                with ProcessPoolExecutor(max_workers=1) as ex:
+                    out.append(ex.submit(fn, j).result())
+            except Exception as e:      # noqa: BLE001
+                out.append(dict(name=j[0], verdict="undecided", backend="-", seconds=0.0, model="", log=["solver process died: %r" % (e,)]))
+        return out
